@@ -87,6 +87,29 @@ impl SignedPeersStore {
     }
 }
 
+#[cfg(mainline_verif)]
+impl SignedPeersStore {
+    #[allow(clippy::type_complexity)]
+    pub fn verif_snapshot(&self) -> Vec<(Id, Vec<([u8; 32], u64, [u8; 64])>)> {
+        self.info_hashes
+            .iter()
+            .map(|(info_hash, peers)| {
+                (
+                    *info_hash,
+                    peers
+                        .iter()
+                        .map(|(_, peer)| (*peer.key(), peer.timestamp(), *peer.signature()))
+                        .collect(),
+                )
+            })
+            .collect()
+    }
+
+    pub fn verif_caps(&self) -> (usize, usize) {
+        (self.info_hashes.cap().get(), self.max_peers.get())
+    }
+}
+
 #[cfg(test)]
 mod test {
     use ed25519_dalek::SigningKey;
